@@ -1,6 +1,7 @@
 pub mod engine;
 pub mod model;
 pub mod ops;
+pub mod systematic;
 pub mod tracklevel;
 pub mod types;
 
@@ -249,6 +250,30 @@ impl Engine for StoreEngine {
         json!({ "store": serde_json::to_value(&case).unwrap(), "calm": calm })
     }
 
+    fn gen_indexed(&self, index: u64, seed: u64, thorough: bool) -> Value {
+        // small-scope sub-batch: every history of up to N operations over a fixed alphabet.
+        // quick tier: after the random runs (their indices, hence cases, stay what they were);
+        // thorough tier: first, because the wall-clock cap may cut the random tail short
+        let random = self.random_runs(thorough);
+        let sys = systematic::total(self.systematic_len(thorough));
+        let sys_index = if thorough {
+            if index >= sys {
+                return self.gen(seed, thorough);
+            }
+            index
+        } else {
+            if index < random {
+                return self.gen(seed, thorough);
+            }
+            index - random
+        };
+        let case = systematic::case(sys_index, self.systematic_len(thorough));
+        if self.prop == "C11" {
+            return json!({ "store": serde_json::to_value(&case).unwrap(), "calm": false, "systematic": true, "track": Value::Null });
+        }
+        json!({ "store": serde_json::to_value(&case).unwrap(), "calm": false, "systematic": true })
+    }
+
     fn run(&self, case: &Value, plan: &SchedPlan) -> Outcome {
         let sc: StoreCase = serde_json::from_value(case["store"].clone()).expect("store case");
         let mut out = Outcome::default();
@@ -369,6 +394,12 @@ impl Engine for StoreEngine {
     }
 
     fn runs(&self, thorough: bool) -> u64 {
+        self.random_runs(thorough) + systematic::total(self.systematic_len(thorough))
+    }
+}
+
+impl StoreEngine {
+    fn random_runs(&self, thorough: bool) -> u64 {
         match (self.prop, thorough) {
             ("C09", false) => 12_000,
             ("C09", true) => 600_000,
@@ -376,6 +407,15 @@ impl Engine for StoreEngine {
             ("C10", true) => 600_000,
             (_, false) => 3_000,
             (_, true) => 150_000,
+        }
+    }
+    /// longest enumerated history (operations after the two-track prefix)
+    fn systematic_len(&self, thorough: bool) -> u32 {
+        match (self.prop, thorough) {
+            ("C11", false) => 1,
+            ("C11", true) => 2,
+            (_, false) => 2,
+            (_, true) => 3,
         }
     }
 }
